@@ -19,6 +19,7 @@ import numpy as np
 
 from harness import common
 from harness import c18_inline as INL
+from harness import c18_lits as LITS
 from harness import c18_sharing as SH
 from harness import c18_traces as TR
 from harness import c18_trees as T
@@ -201,7 +202,12 @@ def run_trees(ctx, cfg):
                 if not ok:
                     hyp_but_mismatch.append(name)
             if not valid[j]:
-                ctx.tie_broken("correspondence", "modelA:validity", f"{name}: the real code ran but the model says calling raises")
+                # the model says calling this program raises, the real code ran: the property itself decides first
+                if not ok:
+                    ctx.violation("C18:naming:initializer-names-differ-from-state-dict-keys:model-says-not-callable", what,
+                                  {"program": T.spec_lit(spec), "initializers": r["inits"], "state_dict": r["sd"]})
+                else:
+                    ctx.tie_broken("correspondence", "modelA:validity", f"{name}: the real code ran but the model says calling raises")
             if not returns[j]:
                 # the model (raises_on_collision probed true) raises ValueError for this program, the real call returned
                 lost = not all(sum(1 for v in r["init_ids"].values() if v == pobj) == 1 for pobj in set(r["sd_ids"]))
@@ -678,6 +684,7 @@ def run(ctx):
     run_traces(ctx, bcfg)
     run_inline_args(ctx)
     INL.run_inline(ctx)
+    LITS.run_lits(ctx)
     ctx.cover(rule="B/C: random traces over 62 operators + If/Loop/Scan subgraph bodies (depth <= 2; Loop/Scan states given as tensors and as "
                    "Python literals int/float/bool/list at every position; literals at every position of Max/Min/Sum/Mean/Concat next to "
                    "float and int64 tensors) + op.call/op.call_inline of script and IR "
